@@ -609,7 +609,7 @@ Sw = make_str("sw", 0b010)
 
 def make_ldr(mnemonic, func):
     rd = Operand("rd", RiscvRegister, write=True)
-    offset = Operand("offset", int)
+    offset = Operand("offset", int, signed=True)
     rs1 = Operand("rs1", RiscvRegister, read=True)
     fprel = False
     syntax = Syntax([mnemonic, " ", rd, ",", " ", offset, "(", rs1, ")"])
